@@ -225,4 +225,125 @@ theorem reject_check_compares_real_paths (fs : FS) (base : PPath) (rel : Comps) 
   obtain ⟨f1, m, f, q, hw1, _, _, _, hw, hr, hb⟩ := read_factors hne hc
   exact ⟨q, m, hr, by simp [canon, hw], hb, by simp [canon, hw1]⟩
 
+/-! ## Non-vacuity: a concrete file system with decoys and links -/
+
+/-- a Python string literal as code points -/
+def str (s : String) : List Ch := s.toList.map Char.toNat
+
+/-- `/srv/templates` is the search directory; `/srv/secret.txt`, `/etc/passwd` and the package's
+`__init__.py` are decoys; `in.txt` is a link that stays inside, `out.txt`/`outdir` lead out, `loop` loops. -/
+def demoFS : FS :=
+  { root := .dir [
+      (str "srv", .dir [
+        (str "templates", .dir [
+          (str "a.txt", .file 1),
+          (str "sub", .dir [(str "b.liquid", .file 2)]),
+          (str "...liquid", .file 3),
+          (str "in.txt", .link false [str "sub", str "b.liquid"]),
+          (str "out.txt", .link false [str "..", str "secret.txt"]),
+          (str "outdir", .link true [str "", str "etc"]),
+          (str "loop", .link false [str "loop"])]),
+        (str "secret.txt", .file 99),
+        (str "pkg", .dir [
+          (str "__init__.py", .file 98),
+          (str "templates", .dir [(str "t.liquid", .file 4)])])]),
+      (str "etc", .dir [(str "passwd", .file 100)])],
+    cwd := [str "srv"], maxLinks := 40 }
+
+def demoCfg (rej : Bool) : FSLConfig :=
+  { search := [parse (str "/srv/templates")], ext := some (str ".liquid"), rejectSymlinks := rej }
+
+def demoPkg : PkgConfig := { paths := [parse (str "/srv/pkg/templates")], ext := str ".liquid" }
+
+example : (parse (str "//a/./b//..//c.tar.gz/")) = ⟨2, [str "a", str "b", str "..", str "c.tar.gz"]⟩ := by decide
+example : suffixOf (str "c.tar.gz") = str ".gz" ∧ suffixOf (str ".hidden") = [] ∧ suffixOf (str "x.") = [] := by decide
+-- ordinary names load, with and without rejection, with the default extension, relative search path
+example : fslGetSource (demoCfg false) demoFS (str "a.txt") = .ok (parse (str "/srv/templates/a.txt"), 1) := by decide
+example : fslGetSource (demoCfg true) demoFS (str "./sub//b") = .ok (parse (str "/srv/templates/sub/b.liquid"), 2) := by decide
+example : fslGetSource { demoCfg true with search := [parse (str "templates")] } demoFS (str "a.txt")
+    = .ok (parse (str "templates/a.txt"), 1) := by decide
+-- a link that stays inside is served even with rejection; one that leads out only without it
+example : fslGetSource (demoCfg true) demoFS (str "in.txt") = .ok (parse (str "/srv/templates/in.txt"), 2) := by decide
+example : fslGetSource (demoCfg false) demoFS (str "out.txt") = .ok (parse (str "/srv/templates/out.txt"), 99) := by decide
+example : fslGetSource (demoCfg true) demoFS (str "out.txt") = .error .notFound := by decide
+example : fslGetSource { demoCfg false with ext := none } demoFS (str "outdir/passwd")
+    = .ok (parse (str "/srv/templates/outdir/passwd"), 100) := by decide
+example : fslGetSource { demoCfg true with ext := none } demoFS (str "outdir/passwd") = .error .notFound := by decide
+-- hostile names
+example : fslGetSource (demoCfg false) demoFS (str "/etc/passwd") = .error .notFound := by decide
+example : fslGetSource (demoCfg false) demoFS (str "../secret.txt") = .error .notFound := by decide
+example : fslGetSource (demoCfg false) demoFS (str "sub/../../secret.txt") = .error .notFound := by decide
+example : fslGetSource (demoCfg true) demoFS (str "loop") = .error .notFound := by decide
+example : fslGetSource (demoCfg false) demoFS (0 :: str "a.txt") = .error .notFound := by decide
+example : fslGetSource (demoCfg false) demoFS (List.replicate 300 120) = .error .notFound := by decide +kernel
+-- a curiosity that stays inside: with an `ext`, the name `..` becomes the file name `...liquid`
+example : fslGetSource (demoCfg true) demoFS (str "..") = .ok (parse (str "/srv/templates/...liquid"), 3) := by decide
+example : pkgGetSource demoPkg demoFS (str "t") = .ok (parse (str "/srv/pkg/templates/t.liquid"), 4) := by decide
+example : pkgGetSource demoPkg demoFS (str "/etc/passwd") = .error .notFound := by decide
+example : pkgGetSource demoPkg demoFS (str "../__init__.py") = .error .notFound := by decide
+example : pkgGetSource demoPkg demoFS [] = .error .notFound := by decide
+
+/-- the hypothesis of the link-free theorems is satisfiable -/
+example : LinkFreeBelow (.dir [([1], .dir [([2], .file 7)])]) [[1]] := by
+  intro s abs t h
+  cases s with
+  | nil => simp [nodeAt, lookup] at h
+  | cons c s =>
+    simp only [List.cons_append, List.nil_append, nodeAt, lookup, if_true] at h
+    split at h
+    · rename_i m hm
+      split at hm
+      · cases hm; cases s <;> simp [nodeAt] at h
+      · simp at hm
+    · cases h
+
+/-! ## The code before the `fix:` commits violated the property (kernel-decided witnesses) -/
+
+/-- the only exception a loader may raise -/
+def OnlyNotFound {α : Type} (r : Except Exc α) : Prop := ∀ e, r = .error e → e = .notFound
+
+/-- **Before `fix: PackageLoader rejects absolute template names`:** `get_template("/srv/secret.txt")` resolved to
+`/srv/secret.txt` itself (and `get_source` returned its content, 99), which is not `package_dir/rel` for any `rel` — the full statement `pkg_resolved_inside`
+was false for `Old.pkgResolve`. -/
+theorem pkg_old_absolute_escapes_counterexample :
+    ¬ (∀ p, Old.pkgResolve demoPkg demoFS (str "/srv/secret.txt") = .ok p →
+        ∃ base ∈ demoPkg.paths, ∃ rel, p = ⟨base.root, base.parts ++ rel⟩) := by
+  intro h
+  obtain ⟨base, hb, rel, hp⟩ := h (parse (str "/srv/secret.txt")) (by decide)
+  simp only [demoPkg, List.mem_cons, List.not_mem_nil, or_false] at hb
+  subst hb
+  have hb : parse (str "/srv/pkg/templates") = ⟨1, [str "srv", str "pkg", str "templates"]⟩ := by decide
+  have hq : parse (str "/srv/secret.txt") = ⟨1, [str "srv", str "secret.txt"]⟩ := by decide
+  rw [hb, hq] at hp
+  simp only [PPath.mk.injEq, List.cons_append, List.cons.injEq] at hp
+  exact absurd hp.2.2.1 (by decide)
+
+/-- **Before `fix: PackageLoader raises TemplateNotFoundError for an empty template name`:** `''` → `ValueError`. -/
+theorem pkg_old_empty_name_counterexample : ¬ OnlyNotFound (Old.pkgResolve demoPkg demoFS []) := by
+  intro h
+  have := h .valueError (by decide)
+  cases this
+
+/-- **Before `fix: PackageLoader treats a path the file system refuses as not found`:** a 256-byte name → `OSError`. -/
+theorem pkg_old_long_name_counterexample :
+    ¬ OnlyNotFound (Old.pkgResolve { demoPkg with ext := [] } demoFS (List.replicate 256 120)) := by
+  intro h
+  have := h .osError (by decide +kernel)
+  cases this
+
+/-- **Before `fix: FileSystemLoader.resolve_path treats a path the file system refuses as not found`:** a
+256-byte name → `OSError` (ENAMETOOLONG is not among the errors `Path.exists()` swallows). -/
+theorem fsl_old_long_name_counterexample :
+    ¬ OnlyNotFound (Old.fslResolve (demoCfg false) demoFS (List.replicate 256 120)) := by
+  intro h
+  have := h .osError (by decide +kernel)
+  cases this
+
+/-- the full statements in the same vocabulary, for the code as it is now -/
+theorem fsl_only_not_found' (cfg : FSLConfig) (fs : FS) (name : List Ch) (hext : ExtValid cfg.ext) :
+    OnlyNotFound (fslGetSource cfg fs name) := fun e h => fsl_only_not_found cfg fs name e hext h
+
+theorem pkg_only_not_found' (cfg : PkgConfig) (fs : FS) (name : List Ch) (hext : suffixOk cfg.ext = true) :
+    OnlyNotFound (pkgGetSource cfg fs name) := fun e h => pkg_only_not_found cfg fs name e hext h
+
 end LiquidVerif.C22
